@@ -1075,4 +1075,49 @@ def isV2 (P : X.Program) : Bool :=
    | some m => !m.isFunc && m.formals.isEmpty
    | none => false)
 
+/-! ### The class V3: also calls of pure functions in operand positions -/
+
+theorem v3_correct (P : X.Program) (st : Stages) (img : Image) (inp : X.Input) (fuel : Nat) (β : X.Behaviour)
+    (hasm : assembleDirs st.optimised = .ok img) (hchk : v3Check P st img = true)
+    (hrun : X.run P inp fuel = .defined β) :
+    ∃ n code j s' io, Isa.run n (Am.boot img) (Isa.IOSt.init inp.stdin inp.files) = .exited code j s' io ∧
+      code = β.exit ∧ io.log.reverse = β.events ∧ inp.stdin.length - io.stdin.length = β.stdinConsumed :=
+  v_correct true P st img inp fuel β hasm hchk hrun
+
+/-- **The class V3 with its side conditions, as one decidable predicate of the source program.** -/
+def v3Ok (P : X.Program) : Bool :=
+  match stages P with
+  | .ok st =>
+    match assembleDirs st.optimised with
+    | .ok img => v3Check P st img
+    | .error _ => false
+  | .error _ => false
+
+theorem v3_whole (P : X.Program) (inp : X.Input) (fuel : Nat) (β : X.Behaviour) (img : Image)
+    (hok : v3Ok P = true) (hcomp : compile P = .ok img) (hrun : X.run P inp fuel = .defined β) :
+    ∃ n code j s' io, Isa.run n (Am.boot img) (Isa.IOSt.init inp.stdin inp.files) = .exited code j s' io ∧
+      code = β.exit ∧ io.log.reverse = β.events ∧ inp.stdin.length - io.stdin.length = β.stdinConsumed := by
+  unfold v3Ok at hok
+  split at hok
+  · rename_i st hst
+    have hc : compile P = assembleDirs st.optimised := by
+      unfold compile compileDirs
+      rw [hst]
+      rfl
+    rw [hc] at hcomp
+    rw [hcomp] at hok
+    exact v3_correct P st img inp fuel β hcomp hok hrun
+  · simp at hok
+
+/-- The syntactic part of the class V3 (implied by `v3Ok`). -/
+def isV3 (P : X.Program) : Bool :=
+  let gn := P.globals.map X.Decl.name
+  let pn := P.procs.map (·.name)
+  P.globals.all isVarDecl &&
+  P.procs.all (fun p => p.formals.all isValFormal && p.locals.all isVarDecl && okS5 true pn (X.impureProcs P) p.body &&
+    (p.formals.map X.Formal.name ++ p.locals.map X.Decl.name).all (fun n => !gn.contains n && !pn.contains n)) &&
+  (match P.procs.find? (·.name == "main") with
+   | some m => !m.isFunc && m.formals.isEmpty
+   | none => false)
+
 end Hex.C01s
